@@ -8,6 +8,7 @@ import (
 	"io"
 	"math/big"
 	"runtime"
+	"sync"
 
 	multiproof "github.com/crate-crypto/go-ipa"
 	"github.com/crate-crypto/go-ipa/bandersnatch/fr"
@@ -39,6 +40,7 @@ type proofProg struct {
 	Polys   []polySpec    `json:"polys"`
 	Ops     []openSpec    `json:"ops"`
 	Perturb []perturbSpec `json:"perturb"`
+	Arrival string        `json:"arrival"` // "": free; rev | rot | evenodd: forced arrival order of the grouping workers
 	// ipa
 	Poly    polySpec `json:"poly"`
 	Point   string   `json:"point"`
@@ -49,6 +51,40 @@ type proofProg struct {
 	Reader string `json:"reader"`
 	Pos    int    `json:"pos"`
 	Fault  int    `json:"fault"`
+}
+
+var gateMu sync.RWMutex
+
+func arrivalOrder(name string, W int) []int {
+	o := make([]int, W)
+	for i := range o {
+		switch name {
+		case "rev":
+			o[i] = W - 1 - i
+		case "rot":
+			o[i] = (i + W/2 + 1) % W
+		default: // evenodd: odd workers first
+			if i < W/2 {
+				o[i] = 2*i + 1
+			} else {
+				o[i] = 2 * (i - W/2)
+			}
+		}
+	}
+	// repair to a permutation when W is odd (evenodd)
+	seen := make([]bool, W)
+	for i, v := range o {
+		if v >= W || seen[v] {
+			for j := 0; j < W; j++ {
+				if !seen[j] {
+					o[i] = j
+					break
+				}
+			}
+		}
+		seen[o[i]] = true
+	}
+	return o
 }
 
 func applyRep(e banderwagon.Element, rep string, p *prg) banderwagon.Element {
@@ -183,6 +219,39 @@ func (d *driver) runMultiproof(w emitter, pid int, pr *proofProg) {
 	ptr := common.NewTranscript(label)
 	var proof *multiproof.MultiProof
 	var err error
+	var observed []int
+	if pr.Arrival == "" {
+		gateMu.RLock()
+	} else {
+		// force the order in which the grouping workers hand over their results
+		gateMu.Lock()
+		W := runtime.NumCPU()
+		batch := (n + W - 1) / W
+		order := arrivalOrder(pr.Arrival, W)
+		pos := make([]int, W)
+		for k, wkr := range order {
+			pos[wkr] = k
+		}
+		var mu sync.Mutex
+		cond := sync.NewCond(&mu)
+		turn := 0
+		multiproof.VerifGroupGate = func(start, end int) {
+			wkr := start / batch
+			mu.Lock()
+			for pos[wkr] != turn {
+				cond.Wait()
+			}
+			mu.Unlock()
+		}
+		multiproof.VerifGroupSent = func(start, end int) {
+			mu.Lock()
+			observed = append(observed, start/batch)
+			turn++
+			cond.Broadcast()
+			mu.Unlock()
+		}
+		e["arrival_forced"] = order
+	}
 	func() {
 		defer func() {
 			if r := recover(); r != nil {
@@ -191,6 +260,13 @@ func (d *driver) runMultiproof(w emitter, pid int, pr *proofProg) {
 		}()
 		proof, err = multiproof.CreateMultiProof(ptr, cfg, Cs, fs, zs)
 	}()
+	if pr.Arrival == "" {
+		gateMu.RUnlock()
+	} else {
+		multiproof.VerifGroupGate, multiproof.VerifGroupSent = nil, nil
+		gateMu.Unlock()
+		e["arrival_observed"] = observed
+	}
 	e["err"] = err != nil
 	e["cs_after"] = elemList(Cs)
 	same := true
